@@ -29,7 +29,8 @@ RULE = ('histories on the real Bus with raw scripted clients (real handshake and
         'hand the bus answer (reply code, owner, queue) to the caller unchanged. Non-trivial = contention (a second '
         'requester on an owned name) or a release/disconnect with a non-empty queue; distinct = distinct history JSON. Every second '
         'raw peer is big-endian; bus calls carry no SENDER, the true one or another client\'s by turns, and come in the four '
-        'header spellings of refcodec.encode_variant; every third peer never says Hello (the bus serves it all the same).')
+        'header spellings of refcodec.encode_variant; every third peer never says Hello (the bus serves it all the same); '
+        'one request in seven is sent fire-and-forget (NO_REPLY_EXPECTED): it counts all the same.')
 ASSUMPTIONS = ['whether a replaced owner is dropped or re-queued is not stated: the model adopts what the next '
                'ListQueuedOwners shows',
                'a queued (non-owner) client releasing the name is answered RELEASED, as the specification defines '
@@ -95,12 +96,15 @@ def run_history(case):
                 if kind == 'request':
                     name = NAMES[op[2] % case['nnames']]
                     before = (_relation(model, ci, name), model.allow.get((name, model.owner(name))))
-                    r = c.call_bus('RequestName', 'su', [name, op[3]])
+                    quiet = si % 7 == 5       # fire and forget: the caller does not want the reply code, the request counts all the same
+                    r = c.call_bus('RequestName', 'su', [name, op[3]], no_reply=quiet)
                     code, events = model.request(ci, name, op[3])
-                    if r is None or r['type'] != 2 or r['body_sig'] != 'u':
+                    if quiet:
+                        pass
+                    elif r is None or r['type'] != 2 or r['body_sig'] != 'u':
                         out.append(Disc('request.no-code', '%s: %r' % (where, r and (r['type'], r['body']))))
                         break
-                    if r['body'][0] != code:
+                    elif r['body'][0] != code:
                         out.append(Disc('request.code:%s,owner-allows=%s,flags=%d:%d->%d' % (
                             before[0], before[1], op[3], code, r['body'][0]),
                             '%s: requester is %s, owner allows replacement=%r: expected reply %d got %d' % (
@@ -111,12 +115,15 @@ def run_history(case):
                 elif kind == 'release':
                     name = NAMES[op[2] % case['nnames']]
                     before = _relation(model, ci, name)
-                    r = c.call_bus('ReleaseName', 's', [name])
+                    quiet = si % 7 == 3
+                    r = c.call_bus('ReleaseName', 's', [name], no_reply=quiet)
                     code, events = model.release(ci, name)
-                    if r is None or r['type'] != 2 or r['body_sig'] != 'u':
+                    if quiet:
+                        pass
+                    elif r is None or r['type'] != 2 or r['body_sig'] != 'u':
                         out.append(Disc('release.no-code', '%s: %r' % (where, r and (r['type'], r['body']))))
                         break
-                    if r['body'][0] != code:
+                    elif r['body'][0] != code:
                         out.append(Disc('release.code:%s:%d->%d' % (before, code, r['body'][0]),
                                         '%s: caller is %s: expected reply %d got %d' % (where, before, code, r['body'][0])))
                         break
